@@ -459,6 +459,21 @@ def analyse_bodies(c, rebound, fmt, sp, res, tmpdir, stats, tag):
             stats["boundary_exact"] += 1
         elif pro:
             stats["boundary_prologue_variant"] += 1
+        # fields that are functions of dt only: reb_integrator_init (called by the serialisation, output.c:484) refreshes
+        # SEI's cached sin/tan of dt, so with the shrunk last-step dt (F18a) they differ as well
+        dtlike = {"dt", "dt_last_done", "ri_sei.lastdt", "ri_sei.sindt", "ri_sei.tandt", "ri_sei.sindtz", "ri_sei.tandtz"}
+        if not (exact or pro) and not set(best) <= dtlike:
+            # not the state of any step boundary: do NOT try to continue it (a torn state can hang the Kepler solver, F14)
+            if unsync and n in window:
+                stats["F18b"] += 1
+                c.violation(F18B, "served snapshot taken while reb_check_exit/epilogue synchronised outside the mutex is torn (%s safe_mode=0): differs from the boundary state in %s"
+                            % (sp["integ"], best[:6]), dict(brep, vs_boundary=best[:8]))
+            else:
+                stats["not_boundary_state"] += 1
+                c.violation("served-snapshot-differs-from-boundary-state",
+                            "served snapshot (steps_done=%s of %s, %s) is not the simulation's state at that step boundary: fields %s differ"
+                            % (n, ends, sp["integ"], best[:6]), dict(brep, vs_boundary=best[:8]))
+            continue
         # continuation
         try:
             fin = fmt.canon(continue_to_end(rebound, fmt, b, sp, tmpdir), MASK)
@@ -469,10 +484,6 @@ def analyse_bodies(c, rebound, fmt, sp, res, tmpdir, stats, tag):
         dd = Fmt.diff(F0, fin) if fin is not None else ["#unparsable"]
         if not dd:
             stats["continued_bitwise"] += 1
-            if not (exact or pro) and not set(best) <= {"dt", "dt_last_done"}:
-                stats["odd_but_continuable"] += 1
-                c.violation("served-snapshot-differs-from-boundary-state",
-                            "served snapshot continues bit-for-bit but differs from the boundary state in %s (%s)" % (best[:6], sp["integ"]), brep)
             continue
         # not continuable bit-for-bit: is it the known dt defect?  At the two boundaries around the shortened last
         # step of an integrate() call the served dt is the shrunk one (last_full_dt lives on the integrator's stack):
@@ -493,10 +504,6 @@ def analyse_bodies(c, rebound, fmt, sp, res, tmpdir, stats, tag):
             stats["F18a"] += 1
             c.violation(F18A, "served snapshot at a last-step boundary carries dt=%r instead of %r; continuing it does not reproduce the run (%s)"
                         % (dt, edt[0], sp["integ"]), dict(brep, differing_fields=dd[:8]))
-        elif unsync and n in window:
-            stats["F18b"] += 1
-            c.violation(F18B, "served snapshot taken while reb_check_exit/epilogue synchronised outside the mutex is torn (%s safe_mode=0): %s"
-                        % (sp["integ"], dd[:6]), dict(brep, differing_fields=dd[:8], vs_boundary=best[:8]))
         else:
             stats["not_continuable"] += 1
             c.violation("served-snapshot-not-continuable", "continuing the served snapshot (steps_done=%s of %s) does not reproduce the uninterrupted run (%s): %s; vs boundary state: %s"
@@ -576,7 +583,7 @@ def scenarios(c):
 
 def server_part(c, d, rebound, fmt, exe, shim, offs, boost):
     stats = {k: 0 for k in ("bodies", "incomplete", "not_boundary", "boundary_exact", "boundary_prologue_variant", "load_fail",
-                            "continued_bitwise", "odd_but_continuable", "F18a", "F18b", "not_continuable",
+                            "continued_bitwise", "not_boundary_state", "F18a", "F18b", "not_continuable",
                             "exact_but_save_load_not_continuable(C05)")}
     tmpdir = tempfile.mkdtemp(prefix="ld.", dir=d)
     S = scenarios(c)
@@ -605,8 +612,8 @@ def server_part(c, d, rebound, fmt, exe, shim, offs, boost):
         if res.get("errors"):
             raise Infra("HTTP client error in %s/%s: %s" % (tag, sp["integ"], res["errors"][:2]))
         cnt = res.get("counts", {})
-        if cnt.get("iStepBegin", 0) != res["steps_done"] or cnt.get("iLock", 0) != res["steps_done"] or \
-                cnt.get("sSerBegin", 0) < res["nbodies"] or cnt.get("iChkBegin", 0) == 0:
+        if cnt.get("iStepBegin", 0) != res["steps_done"] or cnt.get("sSerBegin", 0) < res["nbodies"] or \
+                cnt.get("iChkBegin", 0) == 0 or (cnt.get("iLock", 0) == 0 and cnt.get("sLock", 0) == 0 and res["nbodies"] > 0):
             # the shim did not see the library's calls (PLT interposition ineffective): cannot validate
             raise Infra("shim blind in %s/%s: counts %s steps_done %d bodies %d" % (tag, sp["integ"], cnt, res["steps_done"], res["nbodies"]))
         toks = open(os.path.join(res["out"], "trace.txt")).read().split()
@@ -826,6 +833,15 @@ def tsan_part(c, d):
 
 # ---------------------------------------------------------------------------- main
 def run(c):
+    limit = 2400 if c.thorough else 600
+
+    def hung():
+        print("INFRA-FAILURE C19: watchdog: no result after %d s" % limit, file=sys.stderr)
+        sys.stderr.flush()
+        os._exit(2)
+    wd = threading.Timer(limit, hung)
+    wd.daemon = True
+    wd.start()
     if os.environ.get("C19_DEBUG"):
         import faulthandler
         faulthandler.dump_traceback_later(int(os.environ["C19_DEBUG"]), exit=True)
